@@ -1,6 +1,9 @@
 import DracoModel.SeqDecoder
 import DracoModel.Decoder
 import DracoProofs.TrailingBytes
+import DracoProofs.TrailingBytesSymbols
+import DracoProps.C01
+import DracoProps.C01Kd
 /-
   C06 — encoding and decoding are deterministic functions of their inputs.   (PARTIAL)
 
@@ -11,11 +14,18 @@ import DracoProofs.TrailingBytes
     calls made so far and of the geometry, independent of earlier encode calls — under the abstraction
     that the encoder core is a function of (options, geometry), which is how encode.cc / expert_encode.cc
     are written (a fresh PointCloudEncoder / MeshEncoder per call, options passed by const reference).
-    The counters are modelled as written: `Encoder::EncodePointCloudToBuffer` never updates them, so
-    they DO depend on history (`encoder_counts_depend_on_history`);
-  * bytes that follow the stream: `DecM` computations built from readers that only look at what they
-    consume are unaffected by appended bytes (`Stable`), instances for the header and the attribute
-    descriptors; `remaining_size()` is the one primitive that is not stable, guards on it are monotone.
+    The result counters are modelled as written: since /repo 85f04a5 every successful encode of either
+    API object sets them (`encoder_counts_after_success`: history independent); the code before that fix is
+    kept as `encoderStepPreFix`, where `EncodePointCloudToBuffer` left them alone and they DID depend on
+    history (`prefix_encoder_counts_depend_on_history`);
+  * bytes that follow the stream: for streams PRODUCED BY THE ENCODER MODEL the decode result is independent of
+    appended bytes and exactly the stream is consumed (`encoded_stream_trailing_bytes_ignored_seq`, `_kd`:
+    corollaries of the C01 round-trip theorems, which are stated in `++ extra` form). For ARBITRARY accepted
+    byte strings: `DecM` computations built from readers that only look at what they consume are unaffected
+    by appended bytes (`Stable`; header, attribute descriptors, raw-coded symbol sections);
+    `remaining_size()` is the one byte-level primitive that is not stable (guards on it are monotone), and
+    bit-mode reads are stable exactly while they stay inside the buffer — past the end they yield zeros
+    (`bit_read_past_end_not_stable`), which is where "appended bytes never change an accepted decode" fails.
 
   What is NOT logic: that the compiled C++ has no dependence on uninitialised memory, container
   iteration order, addresses or state left in reused objects. That is observed by tools/props/C06.py
@@ -65,13 +75,24 @@ def expertStep {Opts Geom} (core : Core Opts Geom) (st : ApiState Opts) :
      some r.bytes)
 
 /-- `Encoder` (per attribute *type* options): every encode builds a new `ExpertEncoder` with
-    `CreateExpertEncoderOptions(geometry)`; `EncodeMeshToBuffer` copies the counters back,
-    `EncodePointCloudToBuffer` returns `encoder.EncodeToBuffer(out_buffer)` and leaves them alone -/
+    `CreateExpertEncoderOptions(geometry)`. Since /repo 85f04a5 both `EncodeMeshToBuffer` and
+    `EncodePointCloudToBuffer` are `DRACO_RETURN_IF_ERROR(encoder.EncodeToBuffer(out_buffer));
+    set_num_encoded_points(...); set_num_encoded_faces(...)`: the counters are set by every successful encode. -/
 structure EncoderApi (TOpts Opts Geom : Type) where
   convert : TOpts → Geom → Opts
   isMesh : Geom → Bool
 
 def encoderStep {TOpts Opts Geom} (api : EncoderApi TOpts Opts Geom) (core : Core Opts Geom)
+    (st : ApiState TOpts) : Call TOpts Geom → ApiState TOpts × Option (Option Bytes)
+  | .set f => ({ st with options := f st.options }, none)
+  | .encode g =>
+    let r := core (api.convert st.options g) g
+    (if r.bytes.isSome then { st with numEncodedPoints := r.points, numEncodedFaces := r.faces } else st,
+     some r.bytes)
+
+/-- `Encoder` BEFORE /repo 85f04a5: `EncodeMeshToBuffer` copied the counters back,
+    `EncodePointCloudToBuffer` was `return encoder.EncodeToBuffer(out_buffer);` and left them alone -/
+def encoderStepPreFix {TOpts Opts Geom} (api : EncoderApi TOpts Opts Geom) (core : Core Opts Geom)
     (st : ApiState TOpts) : Call TOpts Geom → ApiState TOpts × Option (Option Bytes)
   | .set f => ({ st with options := f st.options }, none)
   | .encode g =>
@@ -180,14 +201,56 @@ example :
         [.encode (true, 9), .set (fun _ => 10), .encode (true, 30)]) (.encode (true, 12))).2
     = some (some [10, 12]) := by decide
 
-/-- The counters of `draco::Encoder` are NOT a function of setters and geometry: after a point cloud encode
-    `num_encoded_points()` is whatever an earlier mesh encode left there (faithful to encode.cc, where
-    `EncodePointCloudToBuffer` does not call `set_num_encoded_points`). Same setters (none), same final call,
-    different counters. -/
-theorem encoder_counts_depend_on_history :
+/-- `Encoder` (repaired, /repo 85f04a5): after a SUCCESSFUL encode — mesh or point cloud — the counters are
+    the core's counts on (options produced by the setters alone, geometry): whatever the object encoded before
+    and whatever its counters held. -/
+theorem encoder_counts_after_success {T O G} (api : EncoderApi T O G) (core : Core O G) (st : ApiState T)
+    (h : List (Call T G)) (g : G)
+    (hok : (core (api.convert (applySetters st.options h) g) g).bytes.isSome = true) :
+    let a := (encoderStep api core (runCalls (encoderStep api core) st h) (.encode g)).1
+    a.numEncodedPoints = (core (api.convert (applySetters st.options h) g) g).points ∧
+    a.numEncodedFaces = (core (api.convert (applySetters st.options h) g) g).faces := by
+  simp only [encoderStep, encoder_options_after, hok, if_true, and_self]
+
+/-- … hence two `Encoder` objects whose setter histories produce the same options report the same counts
+    after successfully encoding the same geometry (what `rcounts` of the harness op `det` compares) -/
+theorem encoder_counts_history_independent {T O G} (api : EncoderApi T O G) (core : Core O G)
+    (st₁ st₂ : ApiState T) (h₁ h₂ : List (Call T G)) (g : G)
+    (hopts : applySetters st₁.options h₁ = applySetters st₂.options h₂)
+    (hok : (core (api.convert (applySetters st₁.options h₁) g) g).bytes.isSome = true) :
+    let a := (encoderStep api core (runCalls (encoderStep api core) st₁ h₁) (.encode g)).1
+    let b := (encoderStep api core (runCalls (encoderStep api core) st₂ h₂) (.encode g)).1
+    a.numEncodedPoints = b.numEncodedPoints ∧ a.numEncodedFaces = b.numEncodedFaces := by
+  have hok2 : (core (api.convert (applySetters st₂.options h₂) g) g).bytes.isSome = true := by
+    rw [← hopts]; exact hok
+  have a := encoder_counts_after_success api core st₁ h₁ g hok
+  have b := encoder_counts_after_success api core st₂ h₂ g hok2
+  simp only at a b ⊢
+  rw [a.1, a.2, b.1, b.2, hopts]
+  exact ⟨rfl, rfl⟩
+
+-- non-vacuity: a point cloud encode after a mesh encode reports its own counts (7 points, 0 faces)
+example :
     (encoderStep toyApi toyCore (runCalls (encoderStep toyApi toyCore) { options := 5 }
+        [.encode (true, 30)]) (.encode (false, 7))).1.numEncodedPoints = 7 ∧
+    (encoderStep toyApi toyCore (runCalls (encoderStep toyApi toyCore) { options := 5 }
+        []) (.encode (false, 7))).1.numEncodedPoints = 7 := by decide
+
+/-- After a FAILED encode the counters of both API objects keep their old values (the `Status` is the
+    output then); the history independence above is about successful encodes only. -/
+theorem encoder_counts_kept_on_failure {T O G} (api : EncoderApi T O G) (core : Core O G) (st : ApiState T)
+    (g : G) (hfail : (core (api.convert st.options g) g).bytes = none) :
+    (encoderStep api core st (.encode g)).1 = st := by
+  simp [encoderStep, hfail]
+
+/-- PRE-FIX code (before /repo 85f04a5): the counters of `draco::Encoder` were NOT a function of setters and
+    geometry — after a point cloud encode `num_encoded_points()` was whatever an earlier mesh encode had left
+    there (0 on a fresh object, although tracking was requested). Same setters (none), same final call,
+    different counters. Found by the harness op `det` (flag `rcounts`), repaired in /repo 85f04a5. -/
+theorem prefix_encoder_counts_depend_on_history :
+    (encoderStepPreFix toyApi toyCore (runCalls (encoderStepPreFix toyApi toyCore) { options := 5 }
         [.encode (true, 30)]) (.encode (false, 7))).1.numEncodedPoints = 30 ∧
-    (encoderStep toyApi toyCore (runCalls (encoderStep toyApi toyCore) { options := 5 }
+    (encoderStepPreFix toyApi toyCore (runCalls (encoderStepPreFix toyApi toyCore) { options := 5 }
         []) (.encode (false, 7))).1.numEncodedPoints = 0 := by decide
 
 /-! ### Decoder object -/
@@ -277,6 +340,117 @@ example : (decodeHeader { rest := [68, 82, 65, 67, 79, 2, 2, 1, 0, 0, 0] ++ [9, 
     (decodeHeader { rest := [68, 82, 65, 67, 79, 2, 2, 1, 0, 0, 0] ++ [9, 9, 9] }).2.rest.length = 0 + 3 :=
   stable_remaining_size trailing_bytes_stable_header { rest := [68, 82, 65, 67, 79, 2, 2, 1, 0, 0, 0] }
     { rest := [] } ⟨2, 2, 1, 0, 0⟩ [9, 9, 9] rfl
+
+/-! ### streams produced by the encoder (corollaries of C01) -/
+
+/-- **Sequential methods** (point cloud and mesh): for every geometry in the domain of the C01 theorem, all
+    heuristics `ch` and options — if the encoder model produces `bs`, there is ONE decode result `r` such that
+    for every `extra` the decoder on `bs ++ extra` returns `r`, consumes exactly `bs.length` bytes and leaves
+    exactly `extra` unread (`remaining_size() = extra.length`). Cited from `C01.seq_trailing_bytes_ignored`. -/
+theorem encoded_stream_trailing_bytes_ignored_seq (ch : SeqEnc.Choices) (g : Geometry)
+    (md : Option GeometryMetadata) (opts : SeqEnc.EncOpts) (bs : Bytes) (hok : Draco.GeomOK g opts)
+    (hmd : ∀ m, md = some m → m.WF') (henc : SeqEnc.encodeGeometry ch g md opts = some bs) :
+    ∃ r : DecodeResult, ∀ extra : Bytes, ∃ st,
+      decodeGeometry {} { rest := bs ++ extra } = (some r, st) ∧
+      (bs ++ extra).length - st.rest.length = bs.length ∧ st.rest = extra :=
+  C01.seq_trailing_bytes_ignored ch g md opts bs hok hmd henc
+
+/-- … in the form the harness op `det` tests it: two different tails, identical results -/
+theorem encoded_stream_two_tails_seq (ch : SeqEnc.Choices) (g : Geometry)
+    (md : Option GeometryMetadata) (opts : SeqEnc.EncOpts) (bs : Bytes) (hok : Draco.GeomOK g opts)
+    (hmd : ∀ m, md = some m → m.WF') (henc : SeqEnc.encodeGeometry ch g md opts = some bs)
+    (extra₁ extra₂ : Bytes) :
+    (decodeGeometry {} { rest := bs ++ extra₁ }).1 = (decodeGeometry {} { rest := bs ++ extra₂ }).1 ∧
+    (decodeGeometry {} { rest := bs ++ extra₁ }).1.isSome = true := by
+  obtain ⟨r, hr⟩ := encoded_stream_trailing_bytes_ignored_seq ch g md opts bs hok hmd henc
+  obtain ⟨s1, h1, _⟩ := hr extra₁
+  obtain ⟨s2, h2, _⟩ := hr extra₂
+  rw [h1, h2]
+  exact ⟨rfl, rfl⟩
+
+example : ∃ r : DecodeResult, ∀ extra : Bytes, ∃ st,
+    decodeGeometry {} { rest := C01.sampleStream ++ extra } = (some r, st) ∧
+      (C01.sampleStream ++ extra).length - st.rest.length = C01.sampleStream.length ∧ st.rest = extra :=
+  encoded_stream_trailing_bytes_ignored_seq C01.sampleChoices C01.samplePC none C01.sampleOpts C01.sampleStream
+    C01.samplePC_ok (fun m h => by cases h) C01.samplePC_encodes'
+
+/-- **kd-tree point clouds**: if the encoder model produces `bs`, then for every `extra` the decoder on
+    `bs ++ extra` succeeds, returns the metadata, consumes exactly `bs.length` bytes, leaves exactly `extra`
+    unread, and its geometry equals `expectedKd g opts` up to the order of the points.
+    Cited from `C01Kd.pointcloud_kd_roundtrip`. NOTE what this does not say: the cited theorem gives the decoded
+    geometry existentially per `extra`, so that the ORDER of the decoded points is the same for every tail does
+    not follow from it (it is observed by the harness on every kd-tree case, flag `trail`). -/
+theorem encoded_stream_trailing_bytes_ignored_kd (ch : KdEnc.Choices) (hpart : Kd.PartSpec ch.part)
+    (g : Geometry) (md : Option GeometryMetadata) (opts : SeqEnc.EncOpts) (bs : Bytes)
+    (hok : KdEnc.GeomOK g opts) (hmd : ∀ m, md = some m → m.WF')
+    (henc : KdEnc.encodeGeometryKd ch g md opts = some bs) (extra : Bytes) :
+    ∃ g' st, decodeGeometry {} { rest := bs ++ extra } = (some ⟨g', md⟩, st) ∧
+      (bs ++ extra).length - st.rest.length = bs.length ∧ st.rest = extra ∧
+      KdEnc.SameUpToPointOrder g' (KdEnc.expectedKd g opts) := by
+  obtain ⟨g', st, h1, h2, h3⟩ := C01Kd.pointcloud_kd_roundtrip ch hpart g md opts bs hok hmd henc extra
+  exact ⟨g', st, h1, by rw [h2]; simp, h2, h3⟩
+
+/-- … two different tails: both decodes succeed with the same metadata and with geometries that agree in kind,
+    number of points, attribute descriptors and the multiset of per-point value tuples -/
+theorem encoded_stream_two_tails_kd (ch : KdEnc.Choices) (hpart : Kd.PartSpec ch.part)
+    (g : Geometry) (md : Option GeometryMetadata) (opts : SeqEnc.EncOpts) (bs : Bytes)
+    (hok : KdEnc.GeomOK g opts) (hmd : ∀ m, md = some m → m.WF')
+    (henc : KdEnc.encodeGeometryKd ch g md opts = some bs) (extra₁ extra₂ : Bytes) :
+    ∃ g₁ g₂ s₁ s₂, decodeGeometry {} { rest := bs ++ extra₁ } = (some ⟨g₁, md⟩, s₁) ∧
+      decodeGeometry {} { rest := bs ++ extra₂ } = (some ⟨g₂, md⟩, s₂) ∧
+      s₁.rest = extra₁ ∧ s₂.rest = extra₂ ∧ KdEnc.SameUpToPointOrder g₁ g₂ := by
+  obtain ⟨g₁, s₁, a1, _, a3, a4⟩ := encoded_stream_trailing_bytes_ignored_kd ch hpart g md opts bs hok hmd henc extra₁
+  obtain ⟨g₂, s₂, b1, _, b3, b4⟩ := encoded_stream_trailing_bytes_ignored_kd ch hpart g md opts bs hok hmd henc extra₂
+  refine ⟨g₁, g₂, s₁, s₂, a1, b1, a3, b3, ?_⟩
+  obtain ⟨p1, p2, p3, p4, p5⟩ := a4
+  obtain ⟨q1, q2, q3, q4, q5⟩ := b4
+  exact ⟨p1.trans q1.symm, p2.trans q2.symm, p3.trans q3.symm, p4.trans q4.symm, p5.trans q5.symm⟩
+
+example : ∃ bs g' st, KdEnc.encodeGeometryKd C01Kd.sampleKdChoices C01Kd.sampleKdPC none C01Kd.sampleKdOpts = some bs ∧
+    decodeGeometry {} { rest := bs ++ [1, 2, 3] } = (some ⟨g', none⟩, st) ∧
+    (bs ++ [1, 2, 3]).length - st.rest.length = bs.length := by
+  obtain ⟨bs, hbs⟩ := C01Kd.sampleKdPC_encodes
+  obtain ⟨g', st, h1, h2, _⟩ := encoded_stream_trailing_bytes_ignored_kd C01Kd.sampleKdChoices Kd.partSpec_std
+    C01Kd.sampleKdPC none C01Kd.sampleKdOpts bs C01Kd.sampleKdPC_ok (fun m h => by cases h) hbs [1, 2, 3]
+  exact ⟨bs, g', st, hbs, h1, h2⟩
+
+/-! ### arbitrary accepted byte strings: entropy-coded sections -/
+
+/-- a RAW-coded symbol section (`DecodeSymbols` with scheme byte 1: probability table + size-prefixed rANS
+    block), or `num_values = 0`: an accepted decode is unaffected by appended bytes, which stay unread — for ANY
+    byte string, encoder-produced or not. The two `remaining_size()` guards on the way are monotone. -/
+theorem trailing_bytes_stable_raw_symbols (numValues numComponents : Nat) (bs vals rest extra : Bytes)
+    (hraw : numValues = 0 ∨ bs.head? = some 1)
+    (h : Leaf.decodeSymbols numValues numComponents bs = some (vals, rest)) :
+    Leaf.decodeSymbols numValues numComponents (bs ++ extra) = some (vals, rest ++ extra) :=
+  decodeSymbols_raw_stable numValues numComponents bs vals rest extra hraw h
+
+/-- a TAGGED symbol section is unaffected by appended bytes when the value bits it reads in bit mode
+    (`taggedValueBits`: Σ components × rANS-decoded bit length) lie inside the buffer … -/
+theorem trailing_bytes_stable_tagged_symbols_inside (before : Bytes) (numValues numComponents : Nat)
+    (bs vals rest extra : Bytes) (hin : TaggedBitsInside before numValues numComponents bs)
+    (h : decodeTaggedSymbols before numValues numComponents bs = some (vals, rest)) :
+    decodeTaggedSymbols before numValues numComponents (bs ++ extra) = some (vals, rest ++ extra) :=
+  decodeTaggedSymbols_stable_of_bits_inside before numValues numComponents bs vals rest extra hin h
+
+/-- … and this is precisely where stability ends: `BitDecoder::GetBit` past `bit_buffer_end_` returns 0, so a
+    byte string whose bit reads run past its end is accepted, and accepted DIFFERENTLY once bytes follow.
+    (Whole-section witness, real decoder and model: `00 02 03 01 40 01 00` decodes as `[0]`, with `01`
+    appended as `[1]`.) -/
+theorem bit_read_past_end_not_stable :
+    (BitReader.start []).getBits 1 = some (0, BitReader.start []) ∧
+    ((BitReader.start []).app [1]).getBits 1 = some (1, ⟨[1], 1, 1⟩) :=
+  getBits_past_end_not_stable
+
+/-- a bit read inside the buffer is unaffected by appended bytes -/
+theorem bit_read_inside_stable (r : BitReader) (n : Nat) (extra : Bytes) (v : Nat) (r' : BitReader)
+    (hsh : r.sh < 8) (hav : n ≤ r.avail) (h : r.getBits n = some (v, r')) :
+    (r.app extra).getBits n = some (v, r'.app extra) :=
+  getBits_append r n extra v r' hsh hav h
+
+example : (BitReader.start [5, 255]).getBits 9 = some (261, ⟨[255], 1, 9⟩) ∧
+    ((BitReader.start [5, 255]).app [7]).getBits 9 = some (261, ⟨[255, 7], 1, 9⟩) :=
+  ⟨rfl, bit_read_inside_stable (BitReader.start [5, 255]) 9 [7] 261 ⟨[255], 1, 9⟩ (by decide) (by decide) rfl⟩
 
 /-- `remaining_size()` is the primitive through which trailing bytes can be seen at all -/
 theorem remaining_is_not_stable : ¬ Stable remaining := remaining_not_stable
